@@ -53,13 +53,28 @@ fn gen(g: &mut G) -> Plan {
     };
     let mut v6: Vec<Addr> = Vec::new();
     let mut v4: Vec<Addr> = Vec::new();
+    // the resolver's order within a family is its own: the host numbers come in a drawn permutation,
+    // not ascending
+    let perm = |g: &mut G, n: usize| -> Vec<usize> {
+        let mut v: Vec<usize> = (1..=n).collect();
+        for i in (1..v.len()).rev() {
+            let j = g.usize_below(i + 1);
+            v.swap(i, j);
+        }
+        v
+    };
+    let p6 = perm(g, n6 as usize);
+    let p4 = perm(g, n4 as usize);
+    if p6.windows(2).any(|w| w[0] > w[1]) || p4.windows(2).any(|w| w[0] > w[1]) {
+        g.probe("resolver-order-not-numeric");
+    }
     for i in 0..n6 {
         let beh = match g.below(3) {
             0 => ConnectBehaviour::Accept { latency_ns: lat(g) },
             1 => ConnectBehaviour::Refuse { latency_ns: lat(g) },
             _ => ConnectBehaviour::Blackhole,
         };
-        v6.push(Addr { ip: format!("2001:db8::{}", i + 1).parse().unwrap(), beh });
+        v6.push(Addr { ip: format!("2001:db8::{}", p6[i as usize]).parse().unwrap(), beh });
     }
     for i in 0..n4 {
         let beh = match g.below(3) {
@@ -67,7 +82,7 @@ fn gen(g: &mut G) -> Plan {
             1 => ConnectBehaviour::Refuse { latency_ns: lat(g) },
             _ => ConnectBehaviour::Blackhole,
         };
-        v4.push(Addr { ip: format!("192.0.2.{}", i + 1).parse().unwrap(), beh });
+        v4.push(Addr { ip: format!("192.0.2.{}", p4[i as usize]).parse().unwrap(), beh });
     }
     // resolver order: a drawn interleaving that keeps the per-family order
     let mut addrs = Vec::new();
